@@ -39,6 +39,9 @@ type MetricStorage struct {
 	histogramsLock sync.RWMutex
 
 	groupedVault *vault.GroupedVault
+	// groupBatchLock makes "expire the group, then apply the batch's operations" one step:
+	// hooks in different queues send their batches concurrently.
+	groupBatchLock sync.Mutex
 
 	Registry   *prometheus.Registry
 	Gatherer   prometheus.Gatherer
@@ -400,6 +403,9 @@ func (m *MetricStorage) ApplyOperation(op operation.MetricOperation, commonLabel
 
 // applyGroupOperations set metrics for group to a new state defined by ops.
 func (m *MetricStorage) applyGroupOperations(group string, ops []operation.MetricOperation, commonLabels map[string]string) {
+	m.groupBatchLock.Lock()
+	defer m.groupBatchLock.Unlock()
+
 	// Implicitly expire all metrics for group.
 	m.groupedVault.ExpireGroupMetrics(group)
 
